@@ -47,6 +47,9 @@ def run(chk):
     sh_stream = common.stage_histories(chk, ntraces=32 if q else 1500, steps=10 if q else 40,
                                        nvars_choices=[3, 4, 4], profile='stream', tag='st')
     chk.validate('TraceSweep', 'TraceSweep.cfg', sw)
+    sh_stream += common.stage_wide(chk, 'sat')
+    sh_stream += common.stage_histories(chk, ntraces=16 if q else 96, steps=0, nvars_choices=[0],
+                                        profile='zero', tag='zero')     # managers with 0-2 variables
     chk.validate('TraceBDD', 'TraceBDD.cfg', sh_stream)
     common.sweep_canary(chk, sw[0], 'row.count', 'sat.count')
     chk.exhaustive = not q
